@@ -104,6 +104,7 @@ def _r8(chk: Check, R8: str) -> None:
 def charge_rules(chk: Check, R1: str, R3: str) -> None:
     """Charge-first (R1) and exact threshold (R3) for every node kind."""
     F = chk.facts
+    _FACTS[0] = F
     classes = om.op_classes(F)
     rootq = om.ROOT + '.eval'
     limit_classes = [q for q in F.subclasses(om.PARSER_ERROR) if q != om.PARSER_ERROR]
@@ -151,7 +152,7 @@ def charge_rules(chk: Check, R1: str, R3: str) -> None:
                 continue
             # which side raises?
             after = [e for e in nxt[1:] if e.kind != 'assume']
-            after = [e for e in after if e.kind != 'return']
+            after = [e for e in after if e.kind not in ('return', 'log')]
             raises_now = p.outcome[0] == 'raise' and all(e.kind in ('call', 'raise') for e in after) and \
                 any(e.kind == 'raise' for e in after) and \
                 all(e.kind == 'raise' or e.d.get('ctor') or _builds_message(e) for e in after)
@@ -208,6 +209,9 @@ def _raised_class(p):
     return None
 
 
+_FACTS = [None]
+
+
 def _builds_message(e) -> bool:
     """A call that only builds the text of an error message: str()/repr()/format() or a str method on a constant template."""
     if e.kind != 'call':
@@ -216,6 +220,13 @@ def _builds_message(e) -> bool:
     if isinstance(f, tuple) and f[:2] == ('ref', 'builtin') and f[2] in ('str', 'repr', 'format'):
         return True
     if isinstance(f, tuple) and f and f[0] == 'attr' and f[2] in ('format', 'join', 'format_map') and is_const(f[1]) and isinstance(f[1][1], str):
+        return True
+    # a line for the host's diagnostic channel (logger.debug(...) on a module-level logging.Logger) changes nothing the program or
+    # the caller of eval can see; type(x) for such a message likewise
+    if isinstance(f, tuple) and f[:1] == ('attr',) and isinstance(f[1], tuple) and f[1][:2] == ('ref', 'modvar') and f[2] in (
+            'debug', 'info', 'warning', 'error', 'critical', 'log', 'isEnabledFor') and common.is_module_logger(_FACTS[0], f[1][2]):
+        return True
+    if isinstance(f, tuple) and f[:2] == ('ref', 'builtin') and f[2] in ('type', 'len', 'id'):
         return True
     # a classmethod/helper of the exception class that builds the instance (inlined: its events are classified one by one)
     return bool(e.d.get('inlined'))
@@ -380,6 +391,18 @@ def _r5(chk: Check, R5: str, rootq: str) -> None:
             for x in ast.walk(init):
                 if isinstance(x, ast.Attribute) and isinstance(x.ctx, ast.Store) and isinstance(x.value, ast.Name) and x.value.id == sp:
                     init_stores.add(x)
+    # statistics kept for the host (objects the package only ever writes into): their fields may share a name with the counters
+    stat_targets, stat_values = set(), set()
+    for (_cq, _a), tnodes in common.statistics_objects(F).items():
+        stat_targets.update(tnodes)
+    for m_ in F.modules.values():
+        if '.ply' in m_.name:
+            continue
+        for n_ in ast.walk(m_.tree):
+            if isinstance(n_, (ast.Assign, ast.AugAssign)):
+                tg_ = n_.targets if isinstance(n_, ast.Assign) else [n_.target]
+                if tg_ and all(t_ in stat_targets for t_ in tg_):
+                    stat_values.update(ast.walk(n_.value))
     # field names spelled as strings where a class *declares* its fields (__slots__, __match_args__) are declarations
     declared_names = set()
     for ci_ in F.classes.values():
@@ -398,6 +421,15 @@ def _r5(chk: Check, R5: str, rootq: str) -> None:
                 inside = n in root_nodes
                 if n in init_stores:
                     chk.ok(R5, 'store %s in %s' % (n.attr, _encl(F, m, n)), where, 'the constructor fills the field of the state being built')
+                    continue
+                if n in stat_targets:
+                    chk.ok(R5, 'store %s in %s' % (n.attr, _encl(F, m, n)), where, 'a field of a statistics object the package only writes into (not the VM state)')
+                    continue
+                if n in stat_values and not store:
+                    chk.ok(R5, 'load %s in %s' % (n.attr, _encl(F, m, n)), where, 'flows into a statistic nobody reads')
+                    continue
+                if n in common.logger_call_nodes(F) and not store:
+                    chk.ok(R5, 'load %s in %s' % (n.attr, _encl(F, m, n)), where, 'argument of a log line (diagnostic channel of the host)')
                     continue
                 if n in protocol_loads:
                     chk.ok(R5, 'load %s in %s' % (n.attr, _encl(F, m, n)), where, 'value protocol of the state class (repr/eq), not used by evaluation code')
@@ -429,8 +461,24 @@ def _r5(chk: Check, R5: str, rootq: str) -> None:
                 chk.bad(R5, '%s(...) in %s' % (n.func.id, _encl(F, m, n)), where,
                         'reflective attribute write next to the VM state: `%s`' % norm(n))
             if isinstance(n, ast.Attribute) and n.attr == '__dict__' \
-                    and m.name in ('smartquery.ast_ops', 'smartquery.sq_parser', 'smartquery.vm_state'):
+                    and m.name in ('smartquery.ast_ops', 'smartquery.sq_parser', 'smartquery.vm_state') \
+                    and not _pickling_of_other_class(F, m, n, vm):
                 chk.bad(R5, '__dict__ access in %s' % _encl(F, m, n), where, 'reflective attribute access: `%s`' % norm(n))
+
+
+def _pickling_of_other_class(F, m, node, vm: str) -> bool:
+    """`self.__dict__` inside __getstate__ / __setstate__ / __reduce__ / __copy__ / __deepcopy__ of a class that is not the VM
+    state: the pickling / copying protocol of that class, which never sees a state object."""
+    if not (isinstance(node.value, ast.Name)):
+        return False
+    for cq, ci in F.classes.items():
+        if ci.module is not m or cq == vm or (vm in F.classes and F.is_subclass(cq, vm)):
+            continue
+        for mn in ('__getstate__', '__setstate__', '__reduce__', '__reduce_ex__', '__copy__', '__deepcopy__'):
+            fn = ci.methods.get(mn)
+            if fn is not None and fn.args.args and fn.args.args[0].arg == node.value.id and any(x is node for x in ast.walk(fn)):
+                return True
+    return False
 
 
 def _encl(F, m, node) -> str:
